@@ -83,6 +83,12 @@ static void fill_logic()
             std::memcpy(&c, &tmp[l], 1);
             o[l] = c;
         }
+        if (a->out[1])
+        {
+            unsigned char img[B<T>::size];
+            std::memcpy(img, o, sizeof img);
+            stb<T>(a, ldb<T>(img)); // the read-outs (mask, get, count, all/any/none) of a batch_bool holding these lanes
+        }
     });
     // batch<T>(batch_bool) -> 0/1
     reg<T>("bb_to_batch", [](const xsv_args* a) { BB<T> p = ldb<T>(a->in[0]); st<T>(a->out[0], B<T>(p)); });
